@@ -281,30 +281,38 @@ Proof. vm_compute. split; reflexivity. Qed.
    linked-list helpers as programs of the straight-line subset interpreted by
    Model/C02_PtrInterp.v.  Running them is exactly the pointer-level model the
    theorems above are about; an edit that changes a read or a write of a helper
-   makes one of these fail to compile. *)
+   makes one of these fail to compile.  gen_present is false only for a source
+   without any hand-written linked list (no _anchor, no _link_lookup, no helper):
+   the statements are then vacuous and the evidence says `t_tie: vacuous`. *)
+
 Theorem C02_gen_init_ll : forall pr k v,
+  gen_present = true ->
   run_helper gen_init_ll pr k v = Some (p_init (pr_heap pr) (pr_fresh pr), DNone).
 Proof. exact gen_init_ll_ok. Qed.
 Print Assumptions C02_gen_init_ll.
 
 Theorem C02_gen_move_to_front : forall pr k v,
+  gen_present = true ->
   run_helper gen_move_to_front pr k v
   = match p_move_to_front pr k with Some (pr', n) => Some (pr', DCell n) | None => None end.
 Proof. exact gen_move_to_front_ok. Qed.
 Print Assumptions C02_gen_move_to_front.
 
 Theorem C02_gen_add_to_front : forall pr k v,
+  gen_present = true ->
   run_helper gen_add_to_front pr k v = Some (p_add_to_front pr k v, DNone).
 Proof. exact gen_add_to_front_ok. Qed.
 Print Assumptions C02_gen_add_to_front.
 
 Theorem C02_gen_evict : forall pr k v,
+  gen_present = true ->
   run_helper gen_evict pr k v
   = match p_evict pr k v with Some (pr', e) => Some (pr', DKeyO (Some e)) | None => None end.
 Proof. exact gen_evict_ok. Qed.
 Print Assumptions C02_gen_evict.
 
 Theorem C02_gen_remove : forall pr k v,
+  gen_present = true ->
   run_helper gen_remove pr k v
   = match p_remove pr k with Some pr' => Some (pr', DNone) | None => None end.
 Proof. exact gen_remove_ok. Qed.
